@@ -1,6 +1,8 @@
 package main
 
 import (
+	"sync/atomic"
+	"sync"
 	"context"
 	"encoding/xml"
 	"fmt"
@@ -51,7 +53,66 @@ func splitHex(s string) []string {
 	return out
 }
 
+// c06conc: a client routes every received packet in a goroutine of its own, so route() runs concurrently: packets of
+// four kinds, each matching exactly one of four routes, from G goroutines. Every handler checks what it was given.
+func c06conc(G, K int) string {
+	router := xmpp.NewRouter()
+	var handled, misrouted int64
+	check := func(want string) xmpp.HandlerFunc {
+		return func(s xmpp.Sender, p stanza.Packet) {
+			got := "?"
+			switch v := p.(type) {
+			case stanza.Message:
+				got = "message:" + string(v.Type)
+			case stanza.Presence:
+				got = "presence"
+			case *stanza.IQ:
+				got = "iq"
+			}
+			if got == want {
+				atomic.AddInt64(&handled, 1)
+			} else {
+				atomic.AddInt64(&misrouted, 1)
+			}
+		}
+	}
+	router.NewRoute().Packet("message").StanzaType("chat").HandlerFunc(check("message:chat"))
+	router.NewRoute().Packet("message").StanzaType("headline").HandlerFunc(check("message:headline"))
+	router.NewRoute().Packet("presence").HandlerFunc(check("presence"))
+	router.NewRoute().IQNamespaces("jabber:iq:version").HandlerFunc(check("iq"))
+	snd := &recSender{}
+	var wg sync.WaitGroup
+	for g := 0; g < G; g++ {
+		wg.Add(1)
+		go func(g int) {
+			defer wg.Done()
+			defer func() { recover() }()
+			for k := 0; k < K; k++ {
+				var p stanza.Packet
+				switch g % 4 {
+				case 0:
+					p = stanza.Message{Attrs: stanza.Attrs{Type: "chat", Id: "c"}}
+				case 1:
+					p = stanza.Message{Attrs: stanza.Attrs{Type: "headline", Id: "h"}}
+				case 2:
+					p = stanza.Presence{Attrs: stanza.Attrs{Id: "p"}}
+				default:
+					p = &stanza.IQ{Attrs: stanza.Attrs{Type: "get", Id: "i"}, Payload: &fakePayload{ns: "jabber:iq:version"}}
+				}
+				xmpp.VerifRoute(router, snd, p)
+			}
+		}(g)
+	}
+	wg.Wait()
+	return fmt.Sprintf("handled=%d misrouted=%d replies=%d", atomic.LoadInt64(&handled), atomic.LoadInt64(&misrouted), len(snd.sent))
+}
+
 func (c06) Exec(c Case) []string {
+	if len(c.Ops) == 1 && c.Ops[0][0] == "conc" && len(c.Ops[0]) == 3 {
+		G, _ := strconv.Atoi(c.Ops[0][1])
+		K, _ := strconv.Atoi(c.Ops[0][2])
+		return []string{c06conc(G, K)}
+	}
 	router := xmpp.NewRouter()
 	// the application has requests of its own pending under these ids; requests FROM other entities that happen to
 	// carry the same id (ids are unique per sender only) are routed like any other request
@@ -209,6 +270,9 @@ func (c06) Generate(rng *rand.Rand, tier string, st *Stats) []Case {
 			routesets = append(routesets, []string{a, b})
 		}
 	}
+	// concurrent routing (the client's receive loop starts one goroutine per packet)
+	cases = append(cases, Case{ID: "conc", Ops: [][]string{{"conc", "8", "4000"}}})
+	st.Inc("concurrent_routing")
 	n := 0
 	mk := func(routes [][]string) {
 		var ops [][]string
